@@ -1293,12 +1293,28 @@ class Interp:
             return c.length, c.fn
         if isinstance(v, A.Arr) and v.shape and not A.dim_conc(v.shape[0]):
             return v.shape[0], (lambda i: A.getitem(v, i))
+        if isinstance(v, A.Masked) and v.rest == ():
+            # iteration over a boolean-mask selection: over the underlying positions, guarded by the mask (the loop
+            # rule refuses guarded spaces unless a written summary handles the guard)
+            src, mask = v.src, v.mask
+            item = lambda i: src((i,))
+            item.guard = mask
+            item.masked = v
+            return v.n, item
         from .lib import _Enumerate
         if isinstance(v, _Enumerate):
             inner = self.symbolic_iter(v.it)
             if inner is not None:
                 n, item = inner
                 start = v.start
+                guard = getattr(item, "guard", None)
+                if guard is not None:
+                    if not (sv.is_conc(start) and start == 0):
+                        raise EngineError("enumerate(selection, start)")
+                    it2 = lambda i: (A.MaskRank(i, n, guard), item(i))
+                    it2.guard = guard
+                    it2.masked = item.masked
+                    return n, it2
                 return n, (lambda i: (A.simp(sv.add(start, i)), item(i)))
         return None
 
